@@ -52,13 +52,14 @@ def normalize (x : Cps) : Cps :=
 
 /-! ## `__reUnNumDim = ^([+-]?)([0-9]*\.[0-9]+|[0-9]+)(.*)$` with `re.S` (`value.py:539-541`) -/
 
-/-- the three groups of the first (only) match; `none` ⇒ `findall(...)[0]` raises `IndexError`.
-With `re.S` the third group takes everything that is left (`$` then matches at the very end). -/
-def splitNum (s : Cps) : Option (Cps × Cps × Cps) :=
-  let sign : Cps := match s with
-    | c :: _ => if c = cPlus ∨ c = cMinus then [c] else []
-    | [] => []
-  let r := s.drop sign.length
+/-- group 1, `[+-]?` -/
+def signOf (s : Cps) : Cps :=
+  match s with
+  | c :: _ => if c = cPlus ∨ c = cMinus then [c] else []
+  | [] => []
+
+/-- groups 2 and 3 on the text after the sign -/
+def splitAfterSign (sign r : Cps) : Option (Cps × Cps × Cps) :=
   let ds := r.takeWhile isDigit
   let r1 := r.dropWhile isDigit
   -- second alternative `[0-9]+`
@@ -71,6 +72,11 @@ def splitNum (s : Cps) : Option (Cps × Cps × Cps) :=
       -- first alternative `[0-9]*\.[0-9]+`
       if fs.isEmpty then alt2 else some (sign, ds ++ cDot :: fs, r2.dropWhile isDigit)
     else alt2
+
+/-- the three groups of the first (only) match; `none` ⇒ `findall(...)[0]` raises `IndexError`.
+With `re.S` the third group takes everything that is left (`$` then matches at the very end). -/
+def splitNum (s : Cps) : Option (Cps × Cps × Cps) :=
+  splitAfterSign (signOf s) (s.drop (signOf s).length)
 
 /-! ## `DimensionValue` after `_setCssText` (`value.py:552-582`) -/
 
@@ -222,12 +228,9 @@ def numText (ops : NumOps) (p : Prefs) (v : DimVal) : Except Err Cps := do
 def cQuote : Nat := 0x22
 def cApos : Nat := 0x27
 
-/-- `str.isspace` / regex `\s` (unicode): the table is regenerated into `Gen/C18Tables.lean`
-(`Gen.spaceChars`) and proved equal to this predicate on every listed code point in `Props/C18.lean` -/
-def isSpaceChar (c : Nat) : Bool :=
-  c = 0x20 || (0x09 ≤ c && c ≤ 0x0D) || (0x1C ≤ c && c ≤ 0x1F) || c = 0x85 || c = 0xA0 ||
-  c = 0x1680 || (0x2000 ≤ c && c ≤ 0x200A) || c = 0x2028 || c = 0x2029 || c = 0x202F || c = 0x205F ||
-  c = 0x3000
+/-- `str.isspace` / regex `\s` (unicode): the table of the running interpreter, regenerated into
+`Gen/C18Tables.lean` on every run -/
+def isSpaceChar (c : Nat) : Bool := Gen.C18.spaceChars.contains c
 
 /-- the four chained `.replace` calls of `helper.string` (they do not interact: none produces a character
 another one looks for) -/
@@ -387,26 +390,29 @@ deriving DecidableEq, Repr, Inhabited
 def Den.sameValue (a b : Den) : Bool :=
   a.mant * 10 ^ b.scale == b.mant * 10 ^ a.scale && (a.mant == 0 || a.neg == b.neg)
 
-/-- CSS `num` followed by a unit: `[+-]? ( [0-9]* '.' [0-9]+ | [0-9]+ ) unit`.
-Reads the sign, the longest digit run, a fraction when a dot and a digit follow, and calls the rest the unit. -/
+/-- digits, an optional fraction (a dot followed by at least one digit), and the rest is the unit -/
+def denoteAfterSign (neg : Bool) (r : Cps) : Option Den :=
+  let ip := r.takeWhile isDigit
+  let r1 := r.dropWhile isDigit
+  let plain : Option Den :=
+    if ip.isEmpty then none
+    else some { neg := neg, mant := natOfDigits ip, scale := 0, unit := r1.map lowerAscii }
+  match r1 with
+  | d :: e :: r2 =>
+    if d = cDot ∧ isDigit e then
+      let fp := (e :: r2).takeWhile isDigit
+      some { neg := neg, mant := natOfDigits (ip ++ fp), scale := fp.length,
+             unit := ((e :: r2).dropWhile isDigit).map lowerAscii }
+    else plain
+  | _ => plain
+
+/-- CSS `num` followed by a unit: `[+-]? ( [0-9]* '.' [0-9]+ | [0-9]+ ) unit`. -/
 def denote (s : Cps) : Option Den :=
   match s with
   | [] => none
   | c :: t =>
-    let neg := c = cMinus
-    let r := if c = cPlus ∨ c = cMinus then t else s
-    let ip := r.takeWhile isDigit
-    let r1 := r.dropWhile isDigit
-    match r1 with
-    | d :: e :: r2 =>
-      if d = cDot ∧ isDigit e then
-        let fp := (e :: r2).takeWhile isDigit
-        some { neg := neg, mant := natOfDigits (ip ++ fp), scale := fp.length,
-               unit := ((e :: r2).dropWhile isDigit).map lowerAscii }
-      else if ip.isEmpty then none
-      else some { neg := neg, mant := natOfDigits ip, scale := 0, unit := r1.map lowerAscii }
-    | _ =>
-      if ip.isEmpty then none
-      else some { neg := neg, mant := natOfDigits ip, scale := 0, unit := r1.map lowerAscii }
+    if c = cPlus then denoteAfterSign false t
+    else if c = cMinus then denoteAfterSign true t
+    else denoteAfterSign false s
 
 end CssVerif.Num
